@@ -1,5 +1,5 @@
 (* C18 — ExponentialRetry: stops on success, fatal error or cancellation; bounded backoff.
-   Statements only; every proof is `exact` of a lemma of Proofs/Retry.v.
+   Statements only; every proof is `exact` of a lemma of Proofs/Retry.v or Proofs/RetryMore.v.
 
    Vocabulary (Model/Retry.v, Proofs/Retry.v):
      run fl max_shift default_rate rnd cancel_at rate script : result
@@ -10,14 +10,22 @@
      plain o / success o   the outcome is an error not wrapped by FatalError / a nil error
      before_cancel ca n    event n happens strictly before the cancellation (or ctx is never cancelled)
      oracle_ok rnd         forall i n, 0 < n -> 0 <= rnd i n < n        (the contract of rand.Int63n)
-     calc_total calc       the function plugged into the calcExponentialRetry seam returns normally *)
+     calc_total calc       the function plugged into the calcExponentialRetry seam returns normally
+   Model/RetryMore.v (errors that may also carry NON-fatal wrappers, and waitDuration in discrete time):
+     werr = WBase id | WFatal inner | WWrap inner     WWrap: any wrapping error that is not a fatalError (fmt.Errorf %w)
+     wunpack / wis_fatal    unpackFatalError / isFatalError as coded (type switch on the value itself, no Unwrap)
+     has_fatal e            errors.As(e, fatalError): some value of the Unwrap chain of e is a fatalError
+     wrun ...               the closure of ExponentialRetry on such errors (loopG: the same loop, generic in the error type)
+     first_return d cd tm now fuel   first instant >= now at which waitDuration's select can return *)
 From Coq Require Import List ZArith Bool Arith.
-From BB.Model Require Import Retry.
-From BB.Proofs Require Retry.
+From BB.Model Require Import Retry RetryMore.
+From BB.Proofs Require Retry RetryMore.
 Import ListNotations.
 Open Scope Z_scope.
 
-(* FatalError wrappers at ANY depth >= 1 are detected on the outermost value and removed completely. *)
+(* FatalError wrappers at ANY depth >= 1 are detected on the outermost value and removed completely.
+   (Model/Retry.v's [err] can only nest fatalError DIRECTLY inside fatalError; for errors with a non-fatal wrapper in
+   between see the section on [werr] below: there the "at any depth" reading is refuted.) *)
 Theorem C18_fatal_fully_unwrapped : forall (depth : nat) (id : Z),
   (1 <= depth)%nat ->
   is_fatal (wrap depth (EBase id)) = true /\
@@ -25,6 +33,88 @@ Theorem C18_fatal_fully_unwrapped : forall (depth : nat) (id : Z),
   is_fatal (unpack (wrap depth (EBase id))) = false.
 Proof. exact Proofs.Retry.fatal_fully_unwrapped. Qed.
 Print Assumptions C18_fatal_fully_unwrapped.
+
+(* ---- "no fatal wrapper at any depth", on errors that may also carry non-fatal wrappers (Model/RetryMore.v) ---- *)
+
+(* What unpackFatalError as coded does to ANY error: the error is `depth` consecutive fatalError layers on top of a
+   value x that is not a fatalError, and the result is exactly x.  So the returned error never is a fatalError ITSELF. *)
+Theorem C18_unpack_strips_the_consecutive_head : forall e : werr,
+  exists depth x, e = wwrap depth x /\ wis_fatal x = false /\ wunpack e = x /\
+                  (wis_fatal e = true <-> (1 <= depth)%nat).
+Proof. exact Proofs.RetryMore.wunpack_strips_exactly_the_head. Qed.
+Print Assumptions C18_unpack_strips_the_consecutive_head.
+
+(* EXACTLY when a fatal wrapper survives inside the result: fatal layers on top of a NON-fatal wrapper that has a fatal
+   wrapper somewhere inside.  In particular never for the errors of Model/Retry.v (C18_fatal_fully_unwrapped). *)
+Theorem C18_fatal_wrapper_survives_iff : forall e : werr,
+  has_fatal (wunpack e) = true <-> exists depth y, e = wwrap depth (WWrap y) /\ has_fatal y = true.
+Proof. exact Proofs.RetryMore.wunpack_leaves_fatal_iff. Qed.
+Print Assumptions C18_fatal_wrapper_survives_iff.
+
+(* REFUTED: "the returned error contains no fatal wrapper at any depth" is false of the code as it is.  For
+   value() = (5, FatalError(fmt.Errorf("%w", FatalError(e9)))) the closure returns after one call with result 5 and the
+   error  fmt.Errorf("%w", FatalError(e9)) : not a fatalError itself, but errors.As finds a fatalError inside it
+   (reproduced on /repo: errors.As(err, &fatalError{}) = true, and errors.Is(err, e9) = false because fatalError has no
+   Unwrap).  Only errors with a non-fatal wrapper BETWEEN fatal wrappers are affected (previous theorem). *)
+Theorem C18_no_fatal_wrapper_at_any_depth_refuted :
+  exists script,
+    let R := wrun max_shift_go default_rate_go Proofs.Retry.rnd_zero None 1000 script in
+    g_calls R = 1%nat /\ g_res R = Some 5 /\
+    g_ret R = GErr (WWrap (WFatal (WBase 9))) /\ has_fatal (WWrap (WFatal (WBase 9))) = true.
+Proof. exact Proofs.RetryMore.wrun_any_depth_refuted. Qed.
+Print Assumptions C18_no_fatal_wrapper_at_any_depth_refuted.
+
+(* What DOES hold for every script of such errors: a returned error is the unpacked error of a fatal outcome of the
+   script, it is not a fatalError itself, and the delay computation never panics ... *)
+Theorem C18_returned_error_is_not_fatal_at_its_head : forall ms drate rnd ca rate (script : list (outcomeG werr)),
+  0 <= ms <= 31 ->
+  match g_ret (wrun ms drate rnd ca rate script) with
+  | GErr x => wis_fatal x = false /\
+              exists o e, In o script /\ og_err o = Some e /\ wis_fatal e = true /\ x = wunpack e
+  | GPanic => False
+  | _ => True
+  end.
+Proof. exact Proofs.RetryMore.wrun_returned_error_head. Qed.
+Print Assumptions C18_returned_error_is_not_fatal_at_its_head.
+
+(* ... and it has no fatal wrapper at any depth when no error of the script hides one under a non-fatal wrapper. *)
+Theorem C18_no_fatal_wrapper_at_any_depth_when_consecutive : forall ms drate rnd ca rate (script : list (outcomeG werr)),
+  0 <= ms <= 31 ->
+  (forall o e, In o script -> og_err o = Some e -> has_fatal (wunpack e) = false) ->
+  match g_ret (wrun ms drate rnd ca rate script) with GErr x => has_fatal x = false | _ => True end.
+Proof. exact Proofs.RetryMore.wrun_clean_when_consecutive. Qed.
+Print Assumptions C18_no_fatal_wrapper_at_any_depth_when_consecutive.
+
+(* The outcome clauses (1)-(4) of C18_outcome below, re-proved for the closure on errors with non-fatal wrappers:
+   plainG o = "an error whose OUTERMOST value is not a fatalError" (a fatal error hidden under a non-fatal wrapper is a
+   plain failure: the loop goes on), and clause (2) returns wunpack e. *)
+Theorem C18_outcome_with_nonfatal_wrappers : forall ms drate rnd ca rate (script : list (outcomeG werr)),
+  0 <= ms <= 31 ->
+  let R := wrun ms drate rnd ca rate script in
+  let plainW := Proofs.RetryMore.plainG werr wis_fatal in
+  (forall pre o post, script = pre ++ o :: post -> Forall plainW pre -> og_err o = None ->
+     Proofs.Retry.before_cancel ca (2 * length pre) ->
+     g_calls R = S (length pre) /\ g_res R = og_res o /\ g_ret R = GNil) /\
+  (forall pre o post e, script = pre ++ o :: post -> Forall plainW pre -> og_err o = Some e -> wis_fatal e = true ->
+     Proofs.Retry.before_cancel ca (2 * length pre) ->
+     g_calls R = S (length pre) /\ g_res R = og_res o /\ g_ret R = GErr (wunpack e)) /\
+  (forall t m, ca = Some t -> (t <= 2 * m)%nat -> (2 * m <= t + 1)%nat ->
+     (g_calls R <= m)%nat /\
+     (Forall plainW (firstn m script) -> (m <= length script)%nat ->
+      g_calls R = m /\ g_res R = None /\ g_ret R = GCtx)) /\
+  match g_ret R with GErr x => exists e, wis_fatal e = true /\ x = wunpack e | GPanic => False | _ => True end /\
+  (length (g_waits R) <= g_calls R <= length script)%nat /\
+  (g_ret R = GExhausted -> Forall plainW script /\ g_calls R = length script).
+Proof. exact Proofs.RetryMore.outcome_wrun. Qed.
+Print Assumptions C18_outcome_with_nonfatal_wrappers.
+
+(* [loopG] is the same loop: instantiated with the errors of Model/Retry.v it is [loop faithful], field by field. *)
+Theorem C18_generic_closure_is_the_model : forall ms calc ca rate script k c,
+  let R := loopG err is_fatal unpack ms calc ca rate (map Proofs.RetryMore.toG script) k c in
+  let R0 := loop faithful ms calc ca rate script k c in
+  g_calls R = calls R0 /\ g_res R = res R0 /\ g_ret R = Proofs.RetryMore.toR (ret R0) /\ g_waits R = waits R0.
+Proof. exact Proofs.RetryMore.loopG_is_loop. Qed.
+Print Assumptions C18_generic_closure_is_the_model.
 
 (* For EVERY outcome script, EVERY cancellation point, EVERY random oracle and EVERY rate, with R the run:
    (1) first success (all earlier outcomes plain failures, context not cancelled before that attempt's check):
@@ -111,11 +201,36 @@ Theorem C18_given_rate : forall default_rate rate, 0 < rate -> eff_rate default_
 Proof. exact Proofs.Retry.given_rate_used. Qed.
 Print Assumptions C18_given_rate.
 
-(* waitDuration: returns at once for d <= 0; otherwise returns as soon as the context is done OR the timer fires. *)
+(* waitDuration: returns at once for d <= 0; otherwise returns as soon as the context is done OR the timer fires.
+   DEFINITIONAL: this only restates the definition of [wait_returns] (a three-way disjunction); it is kept as the
+   reading of that definition.  The statement with content is C18_wait_returns_at_the_earliest right below. *)
 Theorem C18_wait_select : forall d ctx_done timer_fired,
   wait_returns d ctx_done timer_fired = true <-> (d <= 0 \/ ctx_done = true \/ timer_fired = true).
 Proof. exact Proofs.Retry.wait_returns_spec. Qed.
 Print Assumptions C18_wait_select.
+
+(* "the wait is cut short by cancellation", in (discrete) time counted from the entry into waitDuration(ctx, d), with
+   the context cancelled at instant tc (None: never; Some 0: already done) and the timer firing at instant d:
+   the first instant at which the select of [wait_returns] can return is
+       wait_time d tc  =  0 if d <= 0, else min(tc, d)
+   - it does return then, it is blocked at every earlier instant, it never outlasts the delay, and never outlasts the
+   cancellation. *)
+Theorem C18_wait_returns_at_the_earliest : forall d tc fuel,
+  (Proofs.RetryMore.wait_time d tc <= fuel)%nat ->
+  first_return d (ctx_done_from tc) (timer_from d) 0 fuel = Some (Proofs.RetryMore.wait_time d tc) /\
+  (forall m, (m < Proofs.RetryMore.wait_time d tc)%nat ->
+             wait_returns d (ctx_done_from tc m) (timer_from d m) = false) /\
+  (Proofs.RetryMore.wait_time d tc <= Z.to_nat d)%nat /\
+  (forall t, tc = Some t -> (Proofs.RetryMore.wait_time d tc <= t)%nat).
+Proof. exact Proofs.RetryMore.wait_returns_at_earliest. Qed.
+Print Assumptions C18_wait_returns_at_the_earliest.
+
+(* (definitional: the closed form of the proof-side definition [wait_time] used above) *)
+Theorem C18_wait_time_closed_form : forall d tc,
+  Proofs.RetryMore.wait_time d tc =
+  if d <=? 0 then O else match tc with Some t => Nat.min t (Z.to_nat d) | None => Z.to_nat d end.
+Proof. exact Proofs.RetryMore.wait_time_closed_form. Qed.
+Print Assumptions C18_wait_time_closed_form.
 
 (* Every wait of every run: no timer for d <= 0; the full delay only if the context is not cancelled by the end of the
    wait; a wait during or before which the context is cancelled (t <= 2i+2) does not run to its timer, and is the last
